@@ -18,7 +18,7 @@ def arg(t, v):
 
 # (module, field) names as they may appear in a binary: the resolver must receive exactly these bytes.  Non-ASCII
 # bytes followed by hexadecimal digits, octal digits, quotes, backslashes, trigraph and format characters.
-WIRE = [("env", "mem"), ("donn\u00e9es", "base"), ("t\u00eate", "\u00e9a1"), ("a\"b", "c\\d"), ("??/", "%s%n"), ("\x01\x7f", "\u00ff0"),
+WIRE = [("env", "m e m"), ("donn\u00e9es", "base"), ("t\u00eate", "\u00e9a1"), ("a\"b", "c\\d"), ("??/", "%s%n"), ("\x01\x7f", "\u00ff0"),
         ("m\u00fc7", "\u2603f00d"), ("", "x"), ("x", " "), ("\t", "\n9"), ("caf\u00e9", "\u00e9\u00e9e9"), ("\u20acb", "\U0001f600c0de")]
 
 
@@ -135,7 +135,7 @@ def make_case(cid, rng, memk, tabk, nglob_imp, nglob_def, ndata, nelem, start, t
     m = {"types": types, "imports": imports, "funcs": funcs, "globals": globals_, "exports": exports,
          "data": data, "elems": elems, "start": start_idx}
     if memk == "defined":
-        m["memory"] = {"min": 1, "max": 2}
+        m["memory"] = {"min": 1, "max": 2, "shared": True} if rng.random() < 0.35 else {"min": 1, "max": 2}
         m["exports"].append({"name": "memory", "kind": "memory", "idx": 0})
     if tabk == "defined":
         m["table"] = {"min": 8, "max": 8}
